@@ -111,7 +111,12 @@ pub fn emit_main(batch: &Batch, skip: &[usize]) -> String {
         if skip.contains(&bd.idx) {
             continue;
         }
-        s.push_str(&format!("mod d{} {{ include!(\"d{}.rs\"); }}\n", bd.idx, bd.idx));
+        if bd.origin == "derive" {
+            // the same description compiled by the attribute macro (C11)
+            s.push_str(&format!("#[pdl_derive::pdl_inline(r#\"{}\"#)]\nmod d{} {{}}\n", bd.text, bd.idx));
+        } else {
+            s.push_str(&format!("mod d{} {{ include!(\"d{}.rs\"); }}\n", bd.idx, bd.idx));
+        }
     }
     s.push_str("fn main() {\n    let mut t = Table::default();\n");
     for bd in &batch.descs {
@@ -195,7 +200,9 @@ pub fn build(name: &str, db: DrawnBatch) -> Result<Built, String> {
     let dir = work_dir().join("rs").join(name);
     std::fs::create_dir_all(dir.join("src")).map_err(|e| e.to_string())?;
     let pkg = format!("h_{}", name.chars().map(|c| if c.is_ascii_alphanumeric() { c.to_ascii_lowercase() } else { '_' }).collect::<String>());
-    write_if_changed(&dir.join("Cargo.toml"), &CARGO_TOML.replace("PKGNAME", &pkg));
+    let derive = db.batch.descs.iter().any(|d| d.origin == "derive");
+    let toml = CARGO_TOML.replace("PKGNAME", &pkg).replace("[workspace]", if derive { "pdl-derive = { path = \"/repo/pdl-derive\" }\n\n[workspace]" } else { "[workspace]" });
+    write_if_changed(&dir.join("Cargo.toml"), &toml);
     let lock = std::fs::read_to_string("/repo/Cargo.lock").unwrap_or_default();
     if !dir.join("Cargo.lock").exists() {
         write_if_changed(&dir.join("Cargo.lock"), &lock);
